@@ -496,6 +496,174 @@ Fixpoint nodup_keys (o : obj) : bool :=
 (* no explicitly written empty value in the entry *)
 Definition no_empty (o : obj) : bool := forallb (fun kv : string * jv => negb (jempty (snd kv))) o.
 
+(* ---------------------------------------------------------------------------------------------- *)
+(* KEY SPELLING.  A chain entry is a JSON object: a Go map[string]interface{} whose keys keep the case
+   they were written in (viper lower-cases the keys of nested maps only, not of the maps inside the
+   "domains" list; encoding/json keeps map keys as they are).  The constructors decode it with
+   mapstructure v1.4.2, which looks a struct field's key up EXACTLY first and otherwise takes a key
+   that is equal to it under case folding (strings.EqualFold; the first such key in Go's map order,
+   which is random - [lookup_fold] takes the first in the order of the list, the correspondence run
+   accepts the outcome of either order).  So "id", "Id", "ID" and "iD" are ONE setting for the decoder,
+   and whatever is checked about the id must be checked for every spelling of it:
+     config/chain ValidateDomainID   scans ALL keys k with EqualFold(k, "id") and demands of every
+                                     numeric value that it is an integer in 0..255 ([ids_valid]);
+     config.processRawConfig         (loading against a shared configuration) reads chain["id"] and
+                                     chain["type"] exactly: an entry that spells them otherwise is
+                                     rejected ("chain 'id' not configured") ([loader_pre]).
+   Keys are modelled for ASCII letters (EqualFold's other folds - the Kelvin sign for 'k', the long s
+   for 's' - are outside the model and not generated). *)
+
+Definition lower_ascii (a : ascii) : ascii :=
+  let n := N_of_ascii a in
+  if ((65 <=? n) && (n <=? 90))%N then ascii_of_N (n + 32) else a.
+
+Fixpoint lower (s : string) : string :=
+  match s with
+  | EmptyString => EmptyString
+  | String a r => String (lower_ascii a) (lower r)
+  end.
+
+Definition eq_ci (a b : string) : bool := String.eqb (lower a) (lower b).
+
+(* the entries of [o] whose key is a spelling of [k], and their values *)
+Definition ci_entries (k : string) (o : obj) : obj := filter (fun kv : string * jv => eq_ci (fst kv) k) o.
+Definition ci_values (k : string) (o : obj) : list jv := map snd (ci_entries k o).
+
+Fixpoint lookup_fold (k : string) (o : obj) : option jv :=
+  match o with
+  | [] => None
+  | (k', v) :: r => if eq_ci k' k then Some v else lookup_fold k r
+  end.
+
+(* mapstructure's key lookup for the field tagged [k] *)
+Definition lookup_ci (k : string) (o : obj) : option jv :=
+  match lookup k o with
+  | Some v => Some v
+  | None => lookup_fold k o
+  end.
+
+(* ValidateDomainID on one raw value: a number has to be an integer in 0..255; a value of another
+   type is left for the decoder to refuse *)
+Definition id_value_valid (v : jv) : bool :=
+  match v with
+  | JNum z => (0 <=? z) && (z <=? 255)
+  | JFrac _ _ => false
+  | JStr _ | JBool _ => true
+  end.
+
+(* ValidateDomainID: every key that is a spelling of "id" *)
+Definition ids_valid (o : obj) : bool :=
+  forallb (fun kv : string * jv => if eq_ci (fst kv) "id" then id_value_valid (snd kv) else true) o.
+
+(* the 'simplified' validator that looks the key up exactly (chainConfig["id"]) - NOT the code;
+   kept to state what goes wrong with it ([exact_validate_doc], C20_exact_id_lookup_refuted) *)
+Definition exact_ids_valid (o : obj) : bool :=
+  match lookup "id" o with Some v => id_value_valid v | None => true end.
+
+(* a chain entry as written: the id, the type and the numeric settings with the spelling of their keys
+   (possibly several spellings of one key); [cd_req_missing]: a required STRING setting (endpoint / name
+   / bridge / username / password) is absent under every spelling; [cd_shared]: the entry is loaded by
+   a loader against a shared configuration (which then carries the id the entry writes under "id") *)
+Record chain_doc := mkDoc {
+  cd_kind : chain_kind;
+  cd_shared : bool;
+  cd_req_missing : bool;
+  cd_entry : obj
+}.
+
+Definition num_field (k : string) (o : obj) : option Z :=
+  match lookup_ci k o with Some (JNum z) => Some z | _ => None end.
+
+(* what the decoder reads out of the entry *)
+Definition doc_in (d : chain_doc) : chain_in :=
+  let e := cd_entry d in
+  mkChainIn (cd_kind d)
+    (cd_req_missing d || match lookup_ci "id" e with None => true | Some _ => false end)
+    (match lookup_ci "id" e with Some v => v | None => JNum 0 end)
+    (num_field "blockInterval" e) (num_field "blockConfirmations" e) (num_field "startBlock" e).
+
+(* processRawConfig: chain["id"] a number, chain["type"] present - looked up exactly *)
+Definition loader_pre (e : obj) : bool :=
+  match lookup "id" e with
+  | Some (JNum _) | Some (JFrac _ _) => type_present e
+  | _ => false
+  end.
+
+Definition validate_doc_with (idsv : obj -> bool) (v : chain_in -> option chain_cfg) (d : chain_doc)
+  : option chain_cfg :=
+  if cd_shared d && negb (loader_pre (cd_entry d)) then None
+  else if negb (idsv (cd_entry d)) then None
+  else v (doc_in d).
+
+(* the code: ValidateDomainID over every spelling, then decode + Validate *)
+Definition validate_doc : chain_doc -> option chain_cfg := validate_doc_with ids_valid validate.
+
+(* exact-key validator in front of the (narrowing) decoder *)
+Definition exact_validate_doc : chain_doc -> option chain_cfg := validate_doc_with exact_ids_valid old_id_validate.
+
+Definition obs_of (o : option chain_cfg) : chain_obs :=
+  match o with
+  | Some cfg => Some (cfg, calc_start (cc_start cfg) (cc_interval cfg))
+  | None => None
+  end.
+
+Definition model_doc (d : chain_doc) : chain_obs := obs_of (validate_doc d).
+Definition exact_model_doc (d : chain_doc) : chain_obs := obs_of (exact_validate_doc d).
+
+(* the same entry listed in the opposite order (the other order in which Go may visit the map) *)
+Definition rev_doc (d : chain_doc) : chain_doc :=
+  mkDoc (cd_kind d) (cd_shared d) (cd_req_missing d) (rev (cd_entry d)).
+
+Definition is_num (v : jv) : bool := match v with JNum _ | JFrac _ _ => true | _ => false end.
+
+(* JUDGE for an entry with arbitrary key spellings.  The decoder treats all spellings of a key as the
+   same setting, so: an ACCEPTED configuration's id equals one of the numbers written under a spelling
+   of "id" and that number is a domain id (an integer in 0..255; no opinion when only strings / bools
+   were written); interval and confirmations are >= 1 and each equals a value written under a spelling
+   of its key (0 / absent: the positive default); the start block is one of the written ones (absent:
+   0); the start-block computation did not panic.  Refusing to load is always allowed. *)
+Definition id_ok_any (vs : list jv) (got : Z) : bool :=
+  match filter is_num vs with
+  | [] => true
+  | ns => existsb (fun v => id_ok v got) ns
+  end.
+
+Definition field_ok_any (vs : list jv) (got : Z) : bool :=
+  match vs with
+  | [] => field_ok None got
+  | _ => existsb (fun v => match v with JNum z => field_ok (Some z) got | _ => false end) vs
+  end.
+
+Definition start_ok_any (vs : list jv) (got : Z) : bool :=
+  match vs with
+  | [] => got =? 0
+  | _ => existsb (fun v => match v with JNum z => got =? z | _ => false end) vs
+  end.
+
+Definition doc_ok (d : chain_doc) (o : chain_obs) : bool :=
+  let e := cd_entry d in
+  match o with
+  | Some (cfg, r) =>
+      id_ok_any (ci_values "id" e) (cc_id cfg)
+      && (1 <=? cc_interval cfg) && field_ok_any (ci_values "blockInterval" e) (cc_interval cfg)
+      && (if uses_confs (cd_kind d)
+          then (1 <=? cc_confs cfg) && field_ok_any (ci_values "blockConfirmations" e) (cc_confs cfg)
+          else true)
+      && start_ok_any (ci_values "startBlock" e) (cc_start cfg)
+      && match r with Val _ => true | Panic => false end
+  | None => true
+  end.
+
+(* hypothesis of the theorems (the generator satisfies it): the numeric settings are written as
+   integers *)
+Definition numeric_key (k : string) : bool :=
+  eq_ci k "blockInterval" || eq_ci k "blockConfirmations" || eq_ci k "startBlock".
+
+Definition doc_wf (d : chain_doc) : bool :=
+  forallb (fun kv : string * jv =>
+             if numeric_key (fst kv) then match snd kv with JNum _ => true | _ => false end else true)
+          (cd_entry d).
+
 Local Open Scope string_scope.
 (* ---------------------------------------------------------------------------------------------- *)
 (* String-valued settings (config/relayer/config.go RawRelayerConfig and its sub-structs, the string /
